@@ -294,8 +294,8 @@ def _cli_run(args) -> dict:
 	import yaml
 	cfg_path = os.path.join(root, 'config.yml')
 	cfg = yaml.safe_load(open(cfg_path))
-	from harness.fs_binding import STEM
-	cfg['input_globs'] = [f'vm/{STEM.get(m, m)}.py' for m in order] + ['vm/rich.py']
+	from harness.fs_binding import stem_of
+	cfg['input_globs'] = [f'vm/{stem_of("Chain", m).replace(".", "/")}.py' for m in order] + ['vm/rich.py']
 	yaml.safe_dump(cfg, open(cfg_path, 'w'))
 	env = dict(os.environ)
 	env.update({'PYTHONHASHSEED': hashseed, 'VERIF_CACHE_DIR': os.path.join(root, 'cache'), 'VERIF_CACHE_ENABLED': '1', 'PYTHONPATH': f'{os.path.dirname(os.path.dirname(os.path.dirname(os.path.abspath(__file__))))}:{root}'})
